@@ -133,7 +133,7 @@ func parseAccesses(report []string) []raceAccess {
 }
 
 func isHarnessFrame(f raceFrame) bool {
-	return strings.HasPrefix(f.fn, "verifsim") || strings.HasPrefix(f.file, "/verif/sim/") || strings.HasPrefix(f.fn, "testing.")
+	return strings.HasPrefix(f.fn, "verifsim") || strings.HasPrefix(f.file, simDir+"/") || strings.HasPrefix(f.fn, "testing.")
 }
 
 func isSubjectFrame(f raceFrame) bool {
